@@ -79,7 +79,7 @@ func genC10(cfg Config, emit Emit) error {
 			}
 		}
 		for p := r.Intn(3); p > 0; p-- {
-			s.Prfs = append(s.Prfs, []string{"link", "dlg"}[r.Intn(2)])
+			s.Prfs = append(s.Prfs, []string{"link", "dlg", "link", "dlg", "dup"}[r.Intn(5)])
 		}
 		s.Alter = rcptAlter[i%len(rcptAlter)]
 		emit("rcpt", []string{mustJSON(&s)}, s.Alter+"/"+s.Reader, s.Alter != "none")
@@ -213,7 +213,10 @@ func execRcpt(a []string) Result {
 	var prfLinks []string
 	var prfs delegation.Proofs
 	for i, p := range s.Prfs {
-		if p == "dlg" {
+		if p == "dup" && len(prfs) > 0 { // the same proof cited again
+			prfs = append(prfs, prfs[len(prfs)-1])
+			prfLinks = append(prfLinks, prfLinks[len(prfLinks)-1])
+		} else if p == "dlg" {
 			d, err := delegation.Delegate(alice, sg, []ucan.Capability[NbMap]{ucan.NewCapability("test/run", alice.DID().String(), NbMap{F: map[string]any{}})}, delegation.WithNonce(fmt.Sprintf("p%d", i)), delegation.WithNoExpiration())
 			if err != nil {
 				panic(err)
